@@ -333,7 +333,15 @@ impl Interp {
                 "defined" => V::Bool(!matches!(self.eval(a)?, V::Undef)),
                 other => return Err(RErr::Undefined(format!("test {}", other))),
             },
-            Expr::Cond(..) => return Err(RErr::Undefined("conditional expression".into())),
+            // `a if c else b` (the enumerator always writes the else arm; the else-less form yields a
+            // special undefined and stays outside R)
+            Expr::Cond(a, c, b) => {
+                if truthy(&self.eval(c)?) {
+                    self.eval(a)?
+                } else {
+                    self.eval(b)?
+                }
+            }
             Expr::Call(name, args, kwargs) => {
                 let callee = self.lookup(name);
                 let argv: Vec<V> = args.iter().map(|x| self.eval(x)).collect::<Result<_, _>>()?;
